@@ -1,3 +1,181 @@
 (* Facts about the builder model (Http/Builders.v). *)
 From PM Require Import Lib.Bytes Lib.BytesFacts Lib.PyStr Lib.PyStrFacts Lib.PyStrFacts2 Http.Url Http.Chunk Http.Parser Http.Builders.
 From Coq Require Import ZArith.
+From Coq Require Import Lia.
+
+(* ------------------------------------------------------------------------------------- *)
+(* header access after add_header / del_header / set_body                                  *)
+
+Definition hget (p : parser) (key : bytes) : option (bytes * bytes) :=
+  match headers p with None => None | Some h => dict_get (lower key) h end.
+Definition headers_wf (p : parser) : Prop :=
+  match headers p with None => True | Some h => dict_wf h end.
+
+Lemma header_hget p key : header p key = match hget p key with Some (_, v) => Ok v | None => Err KeyError end.
+Proof. unfold header, hget. destruct (headers p); reflexivity. Qed.
+Lemma has_header_hget p key : has_header p key = match hget p key with Some _ => true | None => false end.
+Proof. unfold has_header, hget, dict_has. destruct (headers p); reflexivity. Qed.
+
+Lemma hget_add_same p k v k' : lower k' = lower k -> hget (add_header p k v) k' = Some (k, v).
+Proof.
+  intros E. unfold hget, add_header, add_header_d. cbn [headers set_headers]. rewrite E.
+  apply dict_get_set_same.
+Qed.
+Lemma hget_add_other p k v k' : lower k' <> lower k -> hget (add_header p k v) k' = hget p k'.
+Proof.
+  intros E. unfold hget, add_header, add_header_d. cbn [headers set_headers].
+  rewrite dict_get_set_other by exact E. destruct (headers p); reflexivity.
+Qed.
+Lemma headers_wf_add p k v : headers_wf p -> headers_wf (add_header p k v).
+Proof.
+  unfold headers_wf, add_header, add_header_d. cbn [headers set_headers].
+  destruct (headers p); intros H; apply dict_wf_set; [exact H|apply dict_wf_nil].
+Qed.
+
+Lemma hget_del_same p k k' : headers_wf p -> lower k' = lower k -> hget (del_header p k) k' = None.
+Proof.
+  intros W E. unfold hget, del_header, headers_wf in *.
+  destruct (headers p) as [[|kv t]|] eqn:Hh; [now rewrite Hh| |now rewrite Hh].
+  destruct (dict_has (lower k) (kv :: t)) eqn:Hd.
+  - cbn [headers set_headers]. rewrite E. now apply dict_get_del_same.
+  - rewrite Hh, E. unfold dict_has in Hd. destruct (dict_get (lower k) (kv :: t)); [discriminate|reflexivity].
+Qed.
+Lemma hget_del_other p k k' : lower k' <> lower k -> hget (del_header p k) k' = hget p k'.
+Proof.
+  intros E. unfold hget, del_header.
+  destruct (headers p) as [[|kv t]|] eqn:Hh; [now rewrite Hh| |now rewrite Hh].
+  destruct (dict_has (lower k) (kv :: t)); [|now rewrite Hh].
+  cbn [headers set_headers]. now apply dict_get_del_other.
+Qed.
+Lemma headers_wf_del p k : headers_wf p -> headers_wf (del_header p k).
+Proof.
+  unfold headers_wf, del_header. destruct (headers p) as [[|kv t]|] eqn:Hh; intros W; try (rewrite Hh; exact W).
+  destruct (dict_has (lower k) (kv :: t)); [|rewrite Hh; exact W].
+  cbn [headers set_headers]. now apply dict_wf_del.
+Qed.
+
+Lemma hget_set_body p b k : hget (set_body p b) k = hget p k.
+Proof. reflexivity. Qed.
+Lemma chunked_add p k v : is_chunked_encoded (add_header p k v) = is_chunked_encoded p.
+Proof. reflexivity. Qed.
+Lemma chunked_del p k : is_chunked_encoded (del_header p k) = is_chunked_encoded p.
+Proof.
+  unfold del_header. destruct (headers p) as [[|kv t]|]; try reflexivity.
+  destruct (dict_has (lower k) (kv :: t)); reflexivity.
+Qed.
+Lemma body_add p k v : body (add_header p k v) = body p.
+Proof. reflexivity. Qed.
+
+(* ------------------------------------------------------------------------------------- *)
+(* update_body                                                                             *)
+Ltac chk := repeat first [rewrite chunked_add | rewrite chunked_del | progress cbn [set_body is_chunked_encoded]];
+  try assumption; try reflexivity.
+
+Section UpdateBody.
+  Variable gz gunz : bytes -> bytes.
+  Hypothesis gunz_gz : forall x, gunz (gz x) = x.
+
+  (* does the parsed message say "Content-Encoding: gzip" (exactly, as update_body tests it)? *)
+  Definition says_gzip (p : parser) : bool :=
+    match hget p L_CONTENT_ENCODING with Some (_, v) => bytes_eqb v V_GZIP | None => false end.
+  (* the body update_body stores *)
+  Definition stored_body (p : parser) (data : bytes) : bytes := if says_gzip p then gz data else data.
+
+  Lemma update_body_ok p data ct : exists p', update_body gz p data ct = Ok p'.
+  Proof.
+    unfold update_body. rewrite has_header_hget, header_hget.
+    destruct (hget p L_CONTENT_ENCODING) as [[o v]|]; cbn [bind].
+    - destruct (bytes_eqb v V_GZIP); cbn [bind]; eexists; reflexivity.
+    - eexists; reflexivity.
+  Qed.
+
+  Theorem update_body_consistent p data ct p' :
+    headers_wf p -> update_body gz p data ct = Ok p' ->
+    (* the body is the new data, gzip-compressed iff the message says Content-Encoding: gzip ... *)
+    body p' = Some (stored_body p data) /\
+    (says_gzip p = true -> gunz (stored_body p data) = data) /\
+    (* ... any other Content-Encoding header is gone *)
+    (says_gzip p = false -> has_header p' L_CONTENT_ENCODING = false) /\
+    header p' H_CONTENT_TYPE = Ok ct /\
+    is_chunked_encoded p' = is_chunked_encoded p /\
+    (* framing headers agree with the stored body *)
+    (if is_chunked_encoded p then has_header p' CONTENT_LENGTH = false
+     else header p' CONTENT_LENGTH = Ok (bytes_of_N (len (stored_body p data)))) /\
+    headers_wf p'.
+  Proof.
+    intros W. unfold update_body, stored_body, says_gzip.
+    rewrite has_header_hget, header_hget.
+    set (ce := hget p L_CONTENT_ENCODING).
+    assert (Hce : hget p L_CONTENT_ENCODING = ce) by reflexivity.
+    destruct ce as [[o v]|]; cbn [bind].
+    - destruct (bytes_eqb v V_GZIP) eqn:G; cbn [bind].
+      + (* gzip *)
+        intros H. inversion H; subst; clear H. rewrite !header_hget, !has_header_hget.
+        repeat apply conj.
+        * destruct (is_chunked_encoded p); reflexivity.
+        * intros _. apply gunz_gz.
+        * discriminate.
+        * now rewrite hget_add_same.
+        * destruct (is_chunked_encoded p) eqn:C; chk.
+        * destruct (is_chunked_encoded p) eqn:C.
+          -- rewrite hget_add_other by discriminate. rewrite hget_set_body.
+             now rewrite hget_del_same.
+          -- rewrite hget_add_other by discriminate. rewrite hget_set_body.
+             now rewrite hget_add_same.
+        * apply headers_wf_add. destruct (is_chunked_encoded p); [now apply headers_wf_del|now apply headers_wf_add].
+      + (* another encoding: header removed, body stored as is *)
+        intros H. inversion H; subst; clear H.
+        assert (W1 : headers_wf (del_header p L_CONTENT_ENCODING)) by now apply headers_wf_del.
+        rewrite chunked_del. rewrite !header_hget, !has_header_hget.
+        repeat apply conj.
+        * destruct (is_chunked_encoded p); reflexivity.
+        * discriminate.
+        * intros _. rewrite hget_add_other by discriminate. rewrite hget_set_body.
+          destruct (is_chunked_encoded p).
+          -- rewrite hget_del_other by discriminate. now rewrite hget_del_same.
+          -- rewrite hget_add_other by discriminate. now rewrite hget_del_same.
+        * now rewrite hget_add_same.
+        * destruct (is_chunked_encoded p) eqn:C; chk.
+        * destruct (is_chunked_encoded p) eqn:C.
+          -- rewrite hget_add_other by discriminate. rewrite hget_set_body.
+             now rewrite hget_del_same.
+          -- rewrite hget_add_other by discriminate. rewrite hget_set_body.
+             now rewrite hget_add_same.
+        * apply headers_wf_add. destruct (is_chunked_encoded p); [now apply headers_wf_del|now apply headers_wf_add].
+    - (* no Content-Encoding *)
+      intros H. inversion H; subst; clear H. rewrite !header_hget, !has_header_hget.
+      repeat apply conj.
+      * destruct (is_chunked_encoded p); reflexivity.
+      * discriminate.
+      * intros _. rewrite hget_add_other by discriminate. rewrite hget_set_body.
+        destruct (is_chunked_encoded p).
+        -- rewrite hget_del_other by discriminate. now rewrite Hce.
+        -- rewrite hget_add_other by discriminate. now rewrite Hce.
+      * now rewrite hget_add_same.
+      * destruct (is_chunked_encoded p) eqn:C; chk.
+      * destruct (is_chunked_encoded p) eqn:C.
+        -- rewrite hget_add_other by discriminate. rewrite hget_set_body.
+           now rewrite hget_del_same.
+        -- rewrite hget_add_other by discriminate. rewrite hget_set_body.
+           now rewrite hget_add_same.
+      * apply headers_wf_add. destruct (is_chunked_encoded p); [now apply headers_wf_del|now apply headers_wf_add].
+  Qed.
+End UpdateBody.
+
+Theorem update_body_spec : forall (gz gunz : bytes -> bytes), (forall x, gunz (gz x) = x) ->
+  forall p data ct, headers_wf p ->
+  exists p', update_body gz p data ct = Ok p' /\
+    body p' = Some (stored_body gz p data) /\
+    (says_gzip p = true -> gunz (stored_body gz p data) = data) /\
+    (says_gzip p = false -> stored_body gz p data = data /\ has_header p' L_CONTENT_ENCODING = false) /\
+    header p' H_CONTENT_TYPE = Ok ct /\
+    is_chunked_encoded p' = is_chunked_encoded p /\
+    (if is_chunked_encoded p then has_header p' CONTENT_LENGTH = false
+     else header p' CONTENT_LENGTH = Ok (dec_of_N (len (stored_body gz p data)))).
+Proof.
+  intros gz gunz Hg p data ct W. destruct (update_body_ok gz p data ct) as [p' E].
+  exists p'. split; [exact E|].
+  destruct (update_body_consistent gz gunz Hg p data ct p' W E) as (A & B & C & D & F & G & _).
+  repeat apply conj; try assumption.
+  intros H. split; [unfold stored_body; now rewrite H|now apply C].
+Qed.
